@@ -11,6 +11,8 @@ const (
 	msgTypeObjectOrArray string = `object/array`
 )
 
-var emptyEntity = struct{}{}
+type emptyEntityType struct{}
+
+var emptyEntity = emptyEntityType{}
 var emptyList = []interface{}{emptyEntity}
 var fullList = []interface{}{true}
